@@ -4,6 +4,7 @@
     filter recurrence in f32). *)
 From Coq Require Import ZArith Bool List Reals.
 Import ListNotations.
+From Flocq Require Import Core.
 From SU Require Import F32 F32Lemmas.
 From SU.Model Require Import Glide.
 From SU.Spec Require Import GlideSpec.
@@ -21,14 +22,18 @@ Theorem C13_coeffs_good : forall fs ops, glide_fs_ok fs -> Forall op_time_ok ops
 Proof. exact coeffs_good. Qed.
 
 (** one sample of the filter with a well-behaved coefficient set, in f32: the output is the
-    exact recurrence  y = (1-p)/2 (x + x1) + p y1  up to 16 * 2^-24 of the signal bound B *)
+    exact recurrence  y = (1-p)/2 (x + x1) + p y1  up to 16 * 2^-24 of the signal bound B.
+    B is any bound on the magnitudes involved that is not vanishingly small (>= 2^-100):
+    for signals in the subnormal range the products underflow and the relative statement
+    is false (Proofs/GlideFilterProofs.v: one_step_unbounded_false) *)
 Theorem C13_one_step : forall d x B,
-  good (d_c d) -> df1_bounded d B -> fin x -> Rabs (R32 x) <= B -> B <= bpow radix2 100 ->
+  good (d_c d) -> df1_bounded d B -> fin x -> Rabs (R32 x) <= B ->
+  bpow radix2 (-100) <= B -> B <= bpow radix2 100 ->
   let '(d', y) := df1_run d x in
   let p := pole (d_c d) in
   fin y /\ df1_fin d' /\ d_c d' = d_c d /\
   Rabs (R32 y - ((1 - p) / 2 * (R32 x + R32 (d_x1 d)) + p * R32 (d_y1 d))) <= 16 * / 16777216 * B.
-Proof. exact one_step. Qed.
+Proof. exact one_step_partial. Qed.
 
 (** the output never leaves the range spanned by its initial value 0 and the inputs seen so
     far, up to the f32 resolution of the filter: resolution kappa = 16 * 2^-24 / kappa
@@ -36,30 +41,34 @@ Proof. exact one_step. Qed.
 Theorem C13_hull : forall fs g0 ops lo hi kappa ys,
   glide_new fs = Some g0 ->
   Forall (fun c => good c /\ kappa <= speed c) (coeffs_used g0 ops) ->
-  / 100000 <= kappa -> lo <= 0 <= hi -> Rmax (- lo) hi <= bpow radix2 64 ->
+  / 100000 <= kappa -> lo <= 0 <= hi ->
+  (Rmax (- lo) hi = 0 \/ bpow radix2 (-100) <= Rmax (- lo) hi) ->
+  Rmax (- lo) hi <= bpow radix2 64 ->
   Forall (op_input_in lo hi) ops ->
   glide_outputs g0 ops = Some ys ->
   Forall (fun y => fin y /\
             lo - resolution kappa * Rmax (- lo) hi <= R32 y <= hi + resolution kappa * Rmax (- lo) hi) ys.
-Proof. exact hull. Qed.
+Proof. exact hull_partial0. Qed.
 
 (** an input held constant (x1 = x already): the distance to the target shrinks by the factor
     p at every sample, keeps its sign (no oscillation around the target) and so converges
     monotonically -- all up to the resolution *)
 Theorem C13_approach : forall d x B,
-  good (d_c d) -> df1_bounded d B -> fin x -> Rabs (R32 x) <= B -> B <= bpow radix2 100 ->
+  good (d_c d) -> df1_bounded d B -> fin x -> Rabs (R32 x) <= B ->
+  bpow radix2 (-100) <= B -> B <= bpow radix2 100 ->
   d_x1 d = x ->
   let '(_, y) := df1_run d x in
   Rabs ((R32 y - R32 x) - pole (d_c d) * (R32 (d_y1 d) - R32 x)) <= 20 * / 16777216 * B.
-Proof. exact approach. Qed.
+Proof. exact approach_partial. Qed.
 
 Theorem C13_settles : forall d x B n kappa,
   good (d_c d) -> kappa <= speed (d_c d) -> / 100000 <= kappa ->
-  df1_bounded d B -> fin x -> Rabs (R32 x) <= B -> B <= bpow radix2 64 -> d_x1 d = x ->
+  df1_bounded d B -> fin x -> Rabs (R32 x) <= B ->
+  bpow radix2 (-100) <= B -> B <= bpow radix2 64 -> d_x1 d = x ->
   let '(d', ys) := run_const d x n in
   let p := Rmax 0 (pole (d_c d)) in
   Rabs (R32 (d_y1 d') - R32 x) <= p ^ n * Rabs (R32 (d_y1 d) - R32 x) + 2 * resolution kappa * B.
-Proof. exact settles. Qed.
+Proof. exact settles_partial. Qed.
 
 Print Assumptions C13_coeffs_good.
 Print Assumptions C13_one_step.
